@@ -128,9 +128,9 @@ std::vector<ShamirShare> Shamir::split(const std::array<std::uint8_t, 32>& secre
     std::vector<ShamirShare> shares;
     shares.reserve(share_count);
 
-    for (std::uint8_t share_index = 1; share_index <= share_count; ++share_index) {
+    for (std::uint16_t share_index = 1; share_index <= share_count; ++share_index) {
         ShamirShare share{};
-        share.index = share_index;
+        share.index = static_cast<std::uint8_t>(share_index);
         shares.push_back(share);
     }
 
